@@ -12,6 +12,7 @@ import (
 	"fmt"
 	"reflect"
 	"sort"
+	"strconv"
 	"strings"
 
 	flags "github.com/jessevdk/go-flags"
@@ -108,6 +109,46 @@ func checkC06Required(c *Ctx, n int) {
 		}
 		active := chain[len(chain)-1]
 		args := active.Args()
+		// the count constraints as the declaration states them (read from the tag text, not from the
+		// library's reading of it)
+		tagOf := map[string]string{}
+		var collectTags func(sd *StructDesc)
+		collectTags = func(sd *StructDesc) {
+			for _, f := range sd.Fields {
+				if f.Kind == "v" {
+					tagOf[f.Name] = f.Tag
+					if pn := reflect.StructTag(f.Tag).Get("positional-arg-name"); pn != "" {
+						tagOf[pn] = f.Tag
+					}
+				} else if f.Sub != nil {
+					collectTags(f.Sub)
+				}
+			}
+		}
+		for bi := range cs.Build {
+			if cs.Build[bi].Struct != nil {
+				collectTags(cs.Build[bi].Struct)
+			}
+		}
+		declaredRange := func(name string) (int, int) {
+			req, max := -1, -1
+			sreq := reflect.StructTag(tagOf[name]).Get("required")
+			if sreq != "" {
+				req = 1
+				rng := strings.SplitN(sreq, "-", 2)
+				if len(rng) > 1 {
+					if v, err := strconv.ParseInt(rng[0], 10, 32); err == nil {
+						req = int(v)
+					}
+					if v, err := strconv.ParseInt(rng[1], 10, 32); err == nil {
+						max = int(v)
+					}
+				} else if v, err := strconv.ParseInt(sreq, 10, 32); err == nil {
+					req = int(v)
+				}
+			}
+			return req, max
+		}
 		k := 0
 		if len(args) > 0 {
 			k = r.Intn(len(args) + 2)
@@ -140,7 +181,8 @@ func checkC06Required(c *Ctx, n int) {
 				if !isRest && ai < k {
 					continue // filled
 				}
-				argRequired := (!isRest && active.ArgsRequired) || a.Required != -1 || a.RequiredMaximum != -1
+				aReq, aMax := declaredRange(a.Name)
+				argRequired := (!isRest && active.ArgsRequired) || aReq != -1 || aMax != -1
 				if !argRequired {
 					continue
 				}
@@ -150,21 +192,21 @@ func checkC06Required(c *Ctx, n int) {
 						got = 0
 					}
 					switch {
-					case got < a.Required:
+					case got < aReq:
 						s := "argument"
-						if a.Required > 1 {
+						if aReq > 1 {
 							s = fmt.Sprintf("arguments, but got only %d", got)
 						}
-						names = append(names, fmt.Sprintf("`%s (at least %d %s)`", a.Name, a.Required, s))
-					case a.RequiredMaximum != -1 && got > a.RequiredMaximum:
-						if a.RequiredMaximum == 0 {
+						names = append(names, fmt.Sprintf("`%s (at least %d %s)`", a.Name, aReq, s))
+					case aMax != -1 && got > aMax:
+						if aMax == 0 {
 							names = append(names, "`"+a.Name+" (zero arguments)`")
 						} else {
 							s := "argument"
-							if a.RequiredMaximum > 1 {
+							if aMax > 1 {
 								s = fmt.Sprintf("arguments, but got %d", got)
 							}
-							names = append(names, fmt.Sprintf("`%s (at most %d %s)`", a.Name, a.RequiredMaximum, s))
+							names = append(names, fmt.Sprintf("`%s (at most %d %s)`", a.Name, aMax, s))
 						}
 					}
 				} else {
